@@ -39,7 +39,18 @@ func dispatchLineShare(sub, sign, peers, cons, ctl string, self, share int, pre 
 	return l
 }
 
-func gen(tier string, rng *h.Rng, emit func(string)) {
+// gen: the lines are generated first (all randomness from rng, in a fixed order), handed to the worker
+// pool, and then emitted in the same order
+func gen(tier string, rng *h.Rng, emitOut func(string)) {
+	var lines []string
+	genLines(tier, rng, func(l string) { lines = append(lines, l) })
+	prefetch(lines)
+	for _, l := range lines {
+		emitOut(l)
+	}
+}
+
+func genLines(tier string, rng *h.Rng, emit func(string)) {
 	progs := []string{"c", "sc", "ssc", "sssc", "ssssc", "s", "-"}
 	conss := []string{"all", "ctx", "-", "n1"}
 	ctls := []string{"f0,f1,r", "f0,f1,x,r", "x,f0,f1,r", "f0,x,f1,r", "f0,f1,x"}
